@@ -47,7 +47,7 @@ impl<W: WorldSpec> Engine<W> {
                         None
                     };
                     let r = catch(|| match acc.kind {
-                        AccKind::BorrowSlice | AccKind::IterBorrow | AccKind::CloneWorld | AccKind::CloneArch | AccKind::DoubleFind | AccKind::DoubleIter => {
+                        AccKind::BorrowSlice | AccKind::IterBorrow | AccKind::CloneWorld | AccKind::CloneArch | AccKind::CloneFromWorld | AccKind::CloneFromArch | AccKind::DoubleFind | AccKind::DoubleIter => {
                             let _g = drv.hold_bslice(w, col, acc.m);
                         }
                         AccKind::FindBorrow | AccKind::BorrowComp => {
